@@ -7,8 +7,8 @@ if [ -n "$(git -C /repo status --porcelain)" ]; then echo "/repo is not clean"; 
 sel="$@"; [ -z "$sel" ] && sel=$(ls seeded | grep -- '-m')
 for s in $sel; do
   id=${s%%-*}
-  if ! git -C /repo apply --check seeded/$s/patch.diff 2>/dev/null; then echo -e "$s\t$id\tPATCH-DOES-NOT-APPLY"; continue; fi
-  git -C /repo apply seeded/$s/patch.diff
+  if ! git -C /repo apply --check /verif/seeded/$s/patch.diff 2>/dev/null; then echo -e "$s\t$id\tPATCH-DOES-NOT-APPLY"; continue; fi
+  git -C /repo apply /verif/seeded/$s/patch.diff
   if grep -q "\"property_id\": \"$id\"" MANIFEST.json; then
     out=$(bin/check $id quick 2>&1); rc=$?
     n=$(echo "$out" | grep -c '^VIOLATION')
